@@ -627,6 +627,10 @@ class InterpolatableFunction(ABC):
         evaluatedPointMin = np.min(self._directlyEvaluatedAt)
         evaluatedPointMax = np.max(self._directlyEvaluatedAt)
 
+        if not self.hasInterpolation() and evaluatedPointMin == evaluatedPointMax:
+            # A table cannot be built from a single point, keep accumulating
+            return
+
         # Reset work variables (doing this here already to avoid spaghetti nesting)
         self._directEvaluateCount = 0
         self._directlyEvaluatedAt = []
